@@ -10,8 +10,10 @@ import time
 from typing import Any, Dict, List, Optional
 
 ROOT = os.path.dirname(os.path.dirname(os.path.abspath(__file__)))
-EVIDENCE_DIR = os.path.join(ROOT, "evidence")
-REPLAY_DIR = os.path.join(ROOT, "replays")
+_SCRATCH = os.environ.get("VERIF_REPO_SRC") not in (None, "", "/repo/src")
+# runs against a scratch copy of the repository (mutant trials) must not overwrite the evidence of the real tree
+EVIDENCE_DIR = "/tmp/verif-scratch/evidence" if _SCRATCH else os.path.join(ROOT, "evidence")
+REPLAY_DIR = "/tmp/verif-scratch/replays" if _SCRATCH else os.path.join(ROOT, "replays")
 FINDINGS_FILE = os.path.join(ROOT, "known_findings.json")
 EVIDENCE_SCHEMA = "/root/.vp/EVIDENCE.schema.json"
 LOCAL_SCHEMA = os.path.join(ROOT, "schemas", "EVIDENCE.schema.json")
